@@ -147,14 +147,14 @@ def split_trace(path, nshards, starts=("New", "Vec", "Frames", "PyEcho")):
     return out
 
 
-def validate_trace(path, tag, timeout=1500, heap="3g"):
+def validate_trace(path, tag, deviations=(), timeout=1500, heap="3g"):
     """returns dict(lines, accepted, first_rejected (1-based or None), status_differs, wall, detail)"""
-    name = cfg("gen_%s_Trace.cfg" % tag, spec="TraceSpec", invs=[], extra="CONSTRAINT Track\nPOSTCONDITION Report\n")
+    name = cfg("gen_%s_Trace.cfg" % tag, spec="TraceSpec", consts={"Deviations": "{%s}" % ", ".join(q(d) for d in deviations)}, invs=[], extra="CONSTRAINT Track\nPOSTCONDITION Report\n")
     r = vlib.tlc("WireTrace", name, FAM, workers=1, timeout=timeout, heap=heap, env={"TRACE": path}, keep_out=True)
     try: os.remove(os.path.join(SPECDIR, name))
     except OSError: pass
-    m = re.search(r'<<"maxline", (\d+), "of", (\d+), "statusdiffers", (\d+), "pyok", (\d+), "pynative", (\d+)>>', r.out)
+    m = re.search(r'<<\s*"maxline",\s*(\d+),\s*"of",\s*(\d+),\s*"statusdiffers",\s*(\d+),\s*"pyok",\s*(\d+),\s*"pynative",\s*(\d+),\s*"F38",\s*(\d+),\s*"F39",\s*(\d+)\s*>>', r.out)
     if r.error or r.violated or not m: raise vlib.MachineryError("WireTrace on %s: %s" % (path, r.error or r.violated or r.out[-2500:]))
-    maxline, n, sd, pyok, pyn = (int(x) for x in m.groups())
-    return {"lines": n, "accepted": maxline > n, "first_rejected": None if maxline > n else maxline, "status_differs": sd, "pyok": pyok, "pynative": pyn, "wall": r.wall,
+    maxline, n, sd, pyok, pyn, f38, f39 = (int(x) for x in m.groups())
+    return {"lines": n, "accepted": maxline > n, "first_rejected": None if maxline > n else maxline, "status_differs": sd, "pyok": pyok, "pynative": pyn, "F38": f38, "F39": f39, "wall": r.wall,
             "detail": r.printed[-1] if r.printed else None}
